@@ -94,6 +94,7 @@ func (session *HermesSession) Run(workingDir string, args []string, logID string
 			session.WriteYamlConfig(herPath.config, NewDefaultConfig())
 		}
 		driConfig := readConfig(&g, argValues, &herPath)
+		verifConfig(&g, &driConfig, &herPath)
 		herPath.SetOutputExtension(driConfig.ResultFileExt)
 
 		if setFileExtension {
@@ -305,6 +306,7 @@ func (session *HermesSession) Run(workingDir string, args []string, logID string
 		g.EINTE[0] = g.EINTE[1]
 
 		for ZEIT := g.BEGINN; ZEIT <= g.ENDE; ZEIT = ZEIT + g.DT.Index {
+			verifDayStart(&g, ZEIT)
 
 			// verify start year matches beginn year
 			if ZEIT == g.BEGINN {
@@ -490,6 +492,7 @@ func (session *HermesSession) Run(workingDir string, args []string, logID string
 			}
 
 			Evatra(&hermesWaterVar, &g, &herPath, ZEIT)
+			verifAfterEvatra(&g, ZEIT, &hermesWaterVar)
 
 			FSCS := 0.0
 			ZSR := 1.0
@@ -628,6 +631,7 @@ func (session *HermesSession) Run(workingDir string, args []string, logID string
 				if finished {
 					cropOutputConfig.WriteLine(CNAMfile)
 				}
+				verifSubStep(&g, ZEIT, SUBD, STEPS, WDT, &hermesWaterVar, &nitroSharedVars)
 			}
 
 			for I := 1; I <= g.N; I++ {
@@ -638,6 +642,7 @@ func (session *HermesSession) Run(workingDir string, args []string, logID string
 			} else {
 				Denitr(&g, false)
 			}
+			verifDayEnd(&g, ZEIT, STEPS, WDT, &cropSharedVars, &hermesWaterVar)
 
 			g.AKTUELL = g.Kalender(ZEIT)
 			if g.YORGAN == 0 {
